@@ -80,14 +80,16 @@ def _check_scaled(ctx, src: MapSnap, dst, r, label):
 
 def ob_rate(game, shape, ctx, no_preview=False, ints=False):
     if ints:  # integer-typed columns (as read from integer-valued files) and a rate that gives non-integral results
-        real, ctx.real = ctx.real, (lambda name: ctx.int(name, -100000, 100000) if name[0] == "t" or name.startswith("len") else real(name))
+        # (times and lengths are integers = 1 mod 3 and the rate is 3/2 + k: every rated value is non-integral, so a result that
+        #  was cast back to integers cannot pass)
+        real, ctx.real = ctx.real, (lambda name: 3 * ctx.int(name, -30000, 30000) + 1 if name[0] == "t" or name.startswith("len") else real(name))
         try:
             m = _chart(ctx, game, shape)
         finally:
             ctx.real = real
         r = ctx.real("r")
-        k = ctx.int("rk", 0, 4)
-        ctx.assume(r * 2 == k * 2 + 1)
+        k = ctx.int("rk", 0, 1)
+        ctx.assume(r * 2 == k * 6 + 3)
     else:
         m = _chart(ctx, game, shape)
         r = ctx.real("r")
